@@ -35,7 +35,7 @@ MANIFEST = {
                 "Unicode::append / toString / length / fromString / isValid (pointer and String forms, array forms), String::fromHex, String::fromBase64 "
                 "(every if / switch with fall-through / loop / pointer step / checked read and store / uint32 and usize wrap-around) are the model functions for all byte "
                 "lists, all lengths < 2^64 and every fuel above the length (body_append ... body_fromBase64); the ten parsers and five formatters call the libc "
-                "function with the arguments and result conversion the model says (body_toInt ... body_fromDouble), the eight <cctype> wrappers the libc predicate the cls lines print (body_ctype_wrappers); numeric_boundary_table: 27 closed rows "
+                "function with the arguments and result conversion the model says (body_toInt ... body_fromDouble), the eight <cctype> wrappers the libc predicate the cls lines print (body_ctype_wrappers); translated_printf_value / fromInt64_ / fromUInt64_ / fromDouble_through_translated_printf (PropsBodyFmt.lean): the translated String::printf, on any String of any state with the String invariant and with the text of the conversion the generated wrapper names, leaves exactly fromX(value) in the String - the canonical numeral for EVERY value incl. INT_MIN / INT64_MIN, and the Codec model\'s hand translation `printf printfCap text` is that value; numeric_boundary_table: 27 closed rows "
                 "(\"-1\" through the unsigned parsers, +-2^64, +-2^63, 2^32, 2^31) that also run on the real code and libc from the corpus.  "
                 "Tie to the current sources on every run: the translated bodies above, generated tables / guard / "
                 "switch expressions / masks / range tests (the theorems are stated over them), identical op lines through the real "
@@ -47,7 +47,9 @@ MANIFEST = {
                 "and is refused where sign extension would matter; pointer parameters as offsets into a block with a readable range; (const char*)s = s ++ [0] readable below "
                 "length(); String r / r.append / r.resize / r.reserve + raw stores + resize(j) under the buffer protocol below; loops as recursive functions on fuel, the theorems "
                 "hold for every fuel above the length; switch = selector once, cases in source order, fall-through unrolled; anything outside the subset is refused = broken tie); "
-                "hand-translated and only tied by the correspondence run: String::printf / fromPrintf (two attempts over vsnprintf), cstr (String -> const char*); "
+                "hand-translated and only tied by the correspondence run: String::fromPrintf (second copy of the two-attempt algorithm), cstr (String -> const char*); "
+                "String::printf is the Str area's translation (Nstd/Generated/StrBody.lean by tools/gen_str.py, regenerated by this run too; Nstd.Str.printf_translated, "
+                "Mach.vsnprintf as the stated libc definition) imported read-only by PropsBodyFmt.lean - the Lean targets of C18 therefore include the Str closure; "
                 "which libc function each numeric / <cctype> wrapper calls is translated at regex level (Generated/CodecNum.lean, any other shape refused); "
                 "the UTF-16 branch of Unicode::append is translated and proved but never executed (not compiled on this platform); "
                 "the table/expression translator of tools/gen_codec.py (Unicode::length, String::isSpace, toLowerCase/toUpperCase(char) as tables by executing harness/codec_probe.cpp built from the current "
@@ -440,16 +442,19 @@ def build_streams(ctx):
     batches += ["decpre - 0", "decpre - 1", "decpre - 2"] + [f"decpre {b:02x} 2" for b in range(256)]
     n4 = 0
     if not quick:
-        for a in (0x80, 0xBF, 0xC2, 0xDF, 0xE0, 0xED, 0xEF, 0xF0, 0xF4, 0xF7, 0xF8, 0xFF):
+        # one lead byte per class of Unicode::length plus the RFC 3629 special leads (trimmed from 12 in round 7: the thorough tier
+        # took 15 min under load; the four dropped bytes 0xBF 0xDF 0xEF 0xF7 are the upper ends of classes that stay covered)
+        LEADS4 = (0x80, 0xC2, 0xE0, 0xED, 0xF0, 0xF4, 0xF8, 0xFF)
+        for a in LEADS4:
             for b in range(256):
                 batches.append(f"decpre {a:02x}{b:02x} 2")
                 n4 += 1
-    npre = 48 if quick else 2000
+    npre = 48 if quick else 1000
     for _ in range(npre):
         pre = rand_utf8ish(rng)[:rng.randrange(2, 7)]
         batches.append(f"decpre {hx(pre)} {rng.choice([1, 2, 2])}")
     batches += ["b64pre - 0", "b64pre - 1", "b64pre - 2", "b64pre - 3"] + [f"b64pre {s:02x} 3" for s in B64SYMS]
-    for _ in range(8 if quick else 200):      # sampled longer: 5..8 symbols
+    for _ in range(8 if quick else 100):      # sampled longer: 5..8 symbols
         pre = bytes(rng.choice(B64SYMS) for _ in range(rng.choice([4, 5, 5])))
         batches.append(f"b64pre {hx(pre)} 3")
     # --- single calls ---
@@ -484,7 +489,7 @@ def build_streams(ctx):
         f"TEST of the model/code tie (not the proof): all 1,114,112 code points in {0x110000 // B} batches of {B} (+ batches above U+10FFFF) "
         "through toString/fromString/isValid/length, compared by count + FNV-1a digest with the model and with Python's utf-8 codec; "
         "decoders on exactly sized heap buffers: every byte string of length 0,1,2 as single calls and every 3-byte string "
-        f"(256 batches of 65536){'' if quick else f' + every 4-byte string behind 12 lead bytes ({n4} batches)'} + {npre} sampled prefixes of 2..6 bytes extended by all 1-2 byte suffixes + random (truncated / "
+        f"(256 batches of 65536){'' if quick else f' + every 4-byte string behind 8 lead bytes ({n4} batches)'} + {npre} sampled prefixes of 2..6 bytes extended by all 1-2 byte suffixes + random (truncated / "
         "bad-continuation / stray-byte) strings; fromBase64 on every string of 0..4 symbols over alphabet+{=,0x80,0xFF,{} "
         "(68^4 = 21,381,376 strings of length 4, in 68 batches) + RFC 4648 encodings of random strings and mutations of them; fromHex of all "
         f"1-byte{'' if quick else ' and 2-byte'} strings + random; {nint} boundary (0, +-1, min, max, 10^k+-1, 2^k+-1) and random integers over the four widths, "
